@@ -33,7 +33,8 @@ from eos.util.float import float_to_int
 
 def get_cycles_until_reload_generic(item, default=None):
     """Get cycles until reload for items with regular charge mechanics."""
-    charge_quantity = item.charge_quantity
+    # Only modules can hold a charge, but any item can carry the effect
+    charge_quantity = getattr(item, 'charge_quantity', None)
     if charge_quantity is None:
         return default
     charge_rate = item.attrs.get(AttrId.charge_rate)
